@@ -536,31 +536,90 @@ func runC20(c *Ctx, r *Report) {
 		contains := c.SSAFn(c.Fn("trie", "Trie.Contains"))
 		prefix := c.Fn("trie", "Trie.Prefix")
 		isValid := c.Fn("trie", "Trie.IsValid")
-		ok := false
-		eachInstr(contains, func(in ssa.Instruction) {
-			if ret, isRet := in.(*ssa.Return); isRet && len(ret.Results) == 1 {
-				if call, isCall := ret.Results[0].(*ssa.Call); isCall && isCallTo(call, isValid) {
-					if pc, isCall := call.Common().Args[0].(*ssa.Call); isCall && isCallTo(pc, prefix) && len(pc.Common().Args) == 2 && pc.Common().Args[1] == ssa.Value(contains.Params[1]) && pc.Common().Args[0] == ssa.Value(contains.Params[0]) {
-						ok = true
+		// validityOf: every return of fn yields "node is not nil and node.valid": the load of node.valid where the node
+		// is known non-nil, or the constant false where it is nil (either polarity of the nil test, early return or &&)
+		validityOf := func(fn *ssa.Function, node ssa.Value) bool {
+			nonNilAt := func(conds []ctrlCond) (nonNil, isNil bool) {
+				for _, cc := range conds {
+					bin, isBin := cc.Cond.(*ssa.BinOp)
+					if !isBin || !(isNilConst(bin.X) || isNilConst(bin.Y)) {
+						continue
+					}
+					other := bin.X
+					if isNilConst(bin.X) {
+						other = bin.Y
+					}
+					if other != node {
+						continue
+					}
+					neq := (bin.Op == token.NEQ) == (cc.Edge == 0)
+					if neq {
+						nonNil = true
+					} else {
+						isNil = true
 					}
 				}
+				return
 			}
-		})
-		r.Check(ok, "C20.R5", ssaFuncName(contains), "Contains(word) = Prefix(word).IsValid()", c.Pos(contains.Pos()), "membership is not the validity of the node reached by the whole word")
+			var okVal func(v ssa.Value, conds []ctrlCond, depth int) bool
+			okVal = func(v ssa.Value, conds []ctrlCond, depth int) bool {
+				if depth > 4 {
+					return false
+				}
+				nn, isN := nonNilAt(conds)
+				switch x := v.(type) {
+				case *ssa.Const:
+					bv, isB := constBool(x)
+					return isB && !bv && isN
+				case *ssa.UnOp:
+					fa, isFa := x.X.(*ssa.FieldAddr)
+					return isFa && fa.Field == validIdx && fa.X == node && (nn || func() bool { n2, _ := nonNilAt(controlling(x.Block())); return n2 }())
+				case *ssa.Phi:
+					for e, ev := range x.Edges {
+						pred := x.Block().Preds[e]
+						if !okVal(ev, edgeConds(pred, x.Block()), depth+1) {
+							return false
+						}
+					}
+					return len(x.Edges) > 0
+				}
+				return false
+			}
+			n, all := 0, true
+			eachInstr(fn, func(in ssa.Instruction) {
+				if ret, isRet := in.(*ssa.Return); isRet && len(ret.Results) == 1 {
+					n++
+					if !okVal(retVal(ret, 0), controlling(ret.Block()), 0) {
+						all = false
+					}
+				}
+			})
+			return n > 0 && all
+		}
 		iv := c.SSAFn(isValid)
-		okv := false
-		eachInstr(iv, func(in ssa.Instruction) {
-			if ld, isLd := in.(*ssa.UnOp); isLd {
-				if fa, isFa := ld.X.(*ssa.FieldAddr); isFa && fa.Field == validIdx && fa.X == ssa.Value(iv.Params[0]) {
-					// guarded by t != nil
-					for _, cc := range controlling(ld.Block()) {
-						if bin, isBin := cc.Cond.(*ssa.BinOp); isBin && bin.Op == token.NEQ && cc.Edge == 0 && (isNilConst(bin.Y) || isNilConst(bin.X)) {
-							okv = true
+		okv := validityOf(iv, iv.Params[0])
+		ok := false
+		eachInstr(contains, func(in ssa.Instruction) {
+			pc, isCall := in.(*ssa.Call)
+			if !isCall || !isCallTo(pc, prefix) || len(pc.Common().Args) != 2 || pc.Common().Args[1] != ssa.Value(contains.Params[1]) || pc.Common().Args[0] != ssa.Value(contains.Params[0]) {
+				return
+			}
+			// the node reached by the whole word: IsValid() of it is returned, or its validity computed in place
+			direct := false
+			for _, ref := range *pc.Referrers() {
+				if vc, isCall := ref.(*ssa.Call); isCall && isCallTo(vc, isValid) {
+					for _, r2 := range *vc.Referrers() {
+						if _, isRet := r2.(*ssa.Return); isRet {
+							direct = true
 						}
 					}
 				}
 			}
+			if (direct && okv) || validityOf(contains, pc) {
+				ok = true
+			}
 		})
+		r.Check(ok, "C20.R5", ssaFuncName(contains), "Contains(word) = Prefix(word).IsValid()", c.Pos(contains.Pos()), "membership is not the validity of the node reached by the whole word")
 		r.Check(okv, "C20.R5", ssaFuncName(iv), "IsValid reads valid under a nil test", c.Pos(iv.Pos()), "IsValid does not return the node's valid flag guarded by t != nil")
 		// endMarker initial value
 		initFn := c.SSAPkg("trie").Func("init")
